@@ -18,6 +18,36 @@ def showO : Option Nat → String
 def optNat (s : String) : Option (Option Nat) :=
   if s = "-" then some none else s.toNat?.map some
 
+def takeNats : Nat → List String → Option (List Nat × List String)
+  | 0, rest => some ([], rest)
+  | k + 1, x :: rest =>
+    match x.toNat?, takeNats k rest with
+    | some v, some (vs, r) => some (v :: vs, r)
+    | _, _ => none
+  | _, _ => none
+
+def parseOuts : Nat → List String → Option (List TxOutDl × List String)
+  | 0, rest => some ([], rest)
+  | n + 1, sc :: mask :: k :: rest =>
+    match bit sc, mask.toNat?, k.toNat? with
+    | some sc, some mask, some k =>
+      match takeNats k rest with
+      | some (keys, rest') =>
+        match parseOuts n rest' with
+        | some (os, r) => some (⟨sc, mask, keys⟩ :: os, r)
+        | none => none
+      | none => none
+    | _, _, _ => none
+  | _, _ => none
+
+def parseHs : Nat → List String → Option (List (Nat × Nat × Nat))
+  | 0, [] => some []
+  | m + 1, a :: b :: c :: rest =>
+    match a.toNat?, b.toNat?, c.toNat?, parseHs m rest with
+    | some a, some b, some c, some r => some ((a, b, c) :: r)
+    | _, _, _, _ => none
+  | _, _ => none
+
 def step (t : List String) : String :=
   match t with
   | ["b58enc", h] =>
@@ -70,6 +100,25 @@ def step (t : List String) : String :=
     match kindLen k, parseHex bh with
     | some n, some b => if b.length = n then "ok " ++ toHex (hexEncode b) else "bad-op"
     | _, _ => "bad-op"
+  | "viewtx" :: n :: rest =>
+    -- viewtx <n> {<script 0|1> <mask> <k> <key dlog>*k}*n <m> {<mask> <index> <hs>}*m
+    match n.toNat? with
+    | some n =>
+      match parseOuts n rest with
+      | some (outs, m :: tbl) =>
+        match m.toNat? with
+        | some m =>
+          match parseHs m tbl with
+          | some table =>
+            let hs : Nat → Nat → Option Nat := fun mask i =>
+              (table.find? (fun e => e.1 == mask && e.2.1 == i)).map (fun e => e.2.2)
+            match viewTx hs outs with
+            | some res => "ok" ++ res.foldl (fun acc ks => acc ++ " " ++ ",".intercalate (ks.map toString) ++ ";") ""
+            | none => "bad-oracle"
+          | none => "bad-op"
+        | none => "bad-op"
+      | _ => "bad-op"
+    | none => "bad-op"
   | ["ghost", a, b, r, rr, hs1, hs2] =>
     match a.toNat?, b.toNat?, r.toNat?, rr.toNat?, optNat hs1, optNat hs2 with
     | some a, some b, some r, some rr, some hs1, some hs2 =>
